@@ -184,6 +184,11 @@ func c02(c *Ctx) {
 							tags = true
 						}
 					}
+					for _, st := range fieldStores(g, "Lexer", "tags") {
+						if cl, ok := st.Val.(*ssa.Call); ok && isCall(cl, "builtin append") {
+							tags = true
+						}
+					}
 				}
 			}
 			for _, in := range leaf.Instrs {
@@ -211,6 +216,13 @@ func c02(c *Ctx) {
 								tags = true
 							case "seekUntil":
 								skip = true
+							}
+						}
+					}
+					if st, ok := in.(*ssa.Store); ok {
+						if t, f, _, ok := fieldRef(st.Addr); ok && t == "Lexer" && f == "tags" {
+							if cl, ok := st.Val.(*ssa.Call); ok && isCall(cl, "builtin append") {
+								tags = true
 							}
 						}
 					}
@@ -408,7 +420,7 @@ func c02(c *Ctx) {
 		if fn := F("lexMetricAttribute"); fn != nil {
 			classes := []effClass{
 				{"rate", []string{"call internal/lexer.seekUntil", "call strconv.ParseFloat", "branch"}, nil},
-				{"tags", []string{"call internal/lexer.seekDelimited", "call (*internal/lexer.Lexer).appendTag"}, []string{"l.err"}},
+				{"tags", []string{"call internal/lexer.seekDelimited", "call (*internal/lexer.Lexer).appendTag||appends l.tags"}, []string{"l.err"}},
 				{"skip", []string{"call internal/lexer.seekUntil", "return lexMetricAttributes"}, []string{"l.err", "ParseFloat", "appendTag", "l.sampling"}},
 			}
 			checkByteTable(c, r, fn, classes, func(b int) string {
@@ -576,53 +588,71 @@ func c02(c *Ctx) {
 			}
 			r.Check("Run:rate-unconditional", nc == 0, st.Pos(), "the rate of every metric is the rate lexed for this line")
 		}
-		// (d) tags
-		at := F("(*Lexer).appendTag")
-		if at == nil {
-			r.Unresolved("(*Lexer).appendTag")
-			return
+		// (d) tags: every append to l.tags, wherever it is written, appends string(data) - a copy - of a
+		// non-empty data that was produced by seekDelimited(l, '|', ',')
+		isTagData := func(v ssa.Value) bool {
+			ex, isE := v.(*ssa.Extract)
+			if !isE || ex.Index != 0 {
+				return false
+			}
+			sc, isC := ex.Tuple.(*ssa.Call)
+			if !isC || !isCall(sc, "internal/lexer.seekDelimited") {
+				return false
+			}
+			s1, ok1 := constInt(sc.Call.Args[1])
+			s2, ok2 := constInt(sc.Call.Args[2])
+			return ok1 && ok2 && s1 == '|' && s2 == ','
 		}
-		c.SawFunc(FuncName(at))
-		for _, cl := range callsTo(at, "builtin append") {
-			ok := false
-			for _, cd := range condsFor(cl.Block()) {
-				cd = normCond(cd)
-				if b := asBinOp(cd.V, token.GTR); b != nil && cd.Sense && pathOf(b.X) == "call(builtin len)" {
-					if z, isC := constInt(b.Y); isC && z == 0 {
-						ok = true
+		nApp := 0
+		for _, fn := range pkgFuncs(w, lexPkg) {
+			for _, st := range fieldStores(fn, "Lexer", "tags") {
+				cl, ok := st.Val.(*ssa.Call)
+				if !ok || !isCall(cl, "builtin append") {
+					continue
+				}
+				nApp++
+				c.SawFunc(FuncName(fn))
+				key := "tags-append:" + FuncName(fn)
+				els := varargElems(cl.Call.Args[1])
+				var data ssa.Value
+				okCopy := len(els) == 1
+				for _, e := range els {
+					cv, isCv := e.(*ssa.Convert)
+					if !isCv {
+						okCopy = false
+					} else if bt, isB := cv.Type().Underlying().(*types.Basic); !isB || bt.Kind() != types.String {
+						okCopy = false
+					} else {
+						data = cv.X
 					}
 				}
-			}
-			r.Check("appendTag:non-empty", ok, cl.Pos(), "a tag is appended only when len(data) > 0")
-			els := varargElems(cl.Common().Args[1])
-			okCopy := len(els) == 1
-			for _, e := range els {
-				cv, isCv := e.(*ssa.Convert)
-				if !isCv || paramIndex(at, cv.X) != 1 {
-					okCopy = false
-				} else if bt, isB := cv.Type().Underlying().(*types.Basic); !isB || bt.Kind() != types.String {
-					okCopy = false
+				r.Check(key+":copies", okCopy, cl.Pos(), "appended value is string(data), a copy of the bytes")
+				if data == nil {
+					continue
 				}
-			}
-			r.Check("appendTag:copies", okCopy, cl.Pos(), "appended value is string(data), a copy of the bytes")
-		}
-		// only appendTag and Run/reset/lexSpecial write l.tags; callers of appendTag pass seekDelimited(l,'|',',')
-		for _, fn := range pkgFuncs(w, lexPkg) {
-			for _, cl := range callsIn(fn) {
-				if cal := staticCallee(cl); cal == at {
-					arg := cl.Common().Args[1]
-					ok := false
-					if ex, isE := arg.(*ssa.Extract); isE && ex.Index == 0 {
-						if sc, isC := ex.Tuple.(*ssa.Call); isC && isCall(sc, "internal/lexer.seekDelimited") {
-							s1, ok1 := constInt(sc.Call.Args[1])
-							s2, ok2 := constInt(sc.Call.Args[2])
-							ok = ok1 && ok2 && s1 == '|' && s2 == ','
+				r.Check(key+":non-empty", knownNonEmpty(factsAt(cl.Block()), func(x ssa.Value) bool { return x == data }), cl.Pos(), "a tag is appended only when len(data) > 0")
+				// provenance of data
+				okSrc := isTagData(data)
+				if p, isP := data.(*ssa.Parameter); isP && !okSrc {
+					idx := paramIndex(fn, p)
+					n := 0
+					okSrc = true
+					for _, g := range pkgFuncs(w, lexPkg) {
+						for _, cc := range callsIn(g) {
+							if staticCallee(cc) == fn {
+								n++
+								if !isTagData(cc.Common().Args[idx]) {
+									okSrc = false
+								}
+							}
 						}
 					}
-					r.Check("appendTag-caller:"+FuncName(fn), ok, cl.Pos(), "tag data comes from seekDelimited(l, '|', ',')")
+					okSrc = okSrc && n > 0
 				}
+				r.Check(key+":source", okSrc, cl.Pos(), "tag data comes from seekDelimited(l, '|', ',')")
 			}
 		}
+		r.Check("tags-append:sites", nApp >= 1, token.NoPos, fmt.Sprintf("%d append sites to l.tags", nApp))
 		// seekDelimited returns slices that exclude the delimiter and the stop byte
 		if sd := F("seekDelimited"); sd != nil {
 			c.SawFunc(FuncName(sd))
@@ -723,6 +753,37 @@ func c02(c *Ctx) {
 			"lexEventBody":        {"lexEventAttributes", "nil"},
 			"lexEventAttributes":  {"lexEventAttribute", "nil"},
 			"lexEventAttribute":   {"closure", "lexAssert", "lexEventAttributes", "lexUint"},
+		}
+		// a documented state whose function was merged into its predecessor(s) is contracted: its
+		// predecessors then hand over to its successors directly.  Only pass-through states (one
+		// documented predecessor, entered unconditionally from it) can be merged this way.
+		contractible := map[string]bool{"lexValue": true, "lexKey": true}
+		for nm := range contractible {
+			if F(nm) != nil {
+				continue
+			}
+			succ := want[nm]
+			delete(want, nm)
+			for k, vs := range want {
+				var out []string
+				set := map[string]bool{}
+				for _, v := range vs {
+					if v == nm {
+						for _, s2 := range succ {
+							if !set[s2] {
+								set[s2] = true
+								out = append(out, s2)
+							}
+						}
+					} else if !set[v] {
+						set[v] = true
+						out = append(out, v)
+					}
+				}
+				sort.Strings(out)
+				want[k] = out
+			}
+			r.Note("state " + nm + " has no function of its own: treated as merged into its predecessor")
 		}
 		names := make([]string, 0, len(want))
 		for k := range want {
